@@ -347,6 +347,10 @@ impl<'a> Gen<'a> {
             path: p.clone(),
             kind,
         });
+        if self.rng.chance(1, 2) {
+            let n = self.rng.range(1, 6) as u32;
+            self.plan.lua_load_yields.insert(p.clone(), n);
+        }
         p
     }
 
